@@ -458,16 +458,37 @@ class World:
                     self.vio('forward-unrelated', {'why': 'statement beneath a rewritten one resolved elsewhere', 'result': repr(rp)}, where_kind=how)
                     return res
                 spans.append(None)
-        # (c) where every member was rewritten (no survivor to anchor on), the answer stays inside what replaced them
-        if spans and all(sp is not None for sp in spans) and all(pos[0] == 'span' for pos, _, _ in model):
-            if len({sp[0] for sp in spans}) == 1:
-                b = spans[0][0]
-                lo, hi = min(sp[1] for sp in spans), max(sp[2] for sp in spans)
-                if not (rblock == b and lo <= rlo and rhi <= hi):
-                    self.vio('forward-unrelated', {'why': 'image of rewritten statements reaches outside what replaced them',
-                                                   'model': repr((b, lo, hi)), 'result': repr(rp)}, where_kind=how)
-            else:
-                self.stats.count('undecided', 'region-came-apart')
+        # (c) the answer lies between the images of the nearest surviving neighbours of the named
+        #     statements (in the program the cursor was taken on): what intermediate passes put
+        #     next to the statement may be part of its image, what lies beyond a surviving
+        #     neighbour may not
+        imgs = self.all_images(rec['node'], ti)
+        ob = rec['paths'][0][:-1]
+        lo_i = min(p[-1] for p in rec['paths'])
+        hi_i = max(p[-1] for p in rec['paths'])
+        if all(p[:-1] == ob for p in rec['paths']):
+            before = [(q[-1], im[0][1]) for q, im in imgs.items()
+                      if q[:-1] == ob and q[-1] < lo_i and im[0][0] == 'path' and im[1]]
+            after = [(q[-1], im[0][1]) for q, im in imgs.items()
+                     if q[:-1] == ob and q[-1] > hi_i and im[0][0] == 'path' and im[1]]
+            if before:
+                _, pb = max(before)
+                if pb[:-1] == rblock and rlo <= pb[-1]:
+                    self.vio('forward-unrelated', {'why': 'the answer starts at or before the image of an earlier surviving statement',
+                                                   'neighbour_image': repr(pb), 'result': repr(rp)}, where_kind=how)
+                    return res
+            if after:
+                _, pa = min(after)
+                if pa[:-1] == rblock and rhi > pa[-1]:
+                    self.vio('forward-unrelated', {'why': 'the answer reaches the image of a later surviving statement',
+                                                   'neighbour_image': repr(pa), 'result': repr(rp)}, where_kind=how)
+                    return res
+            # and it lies in the block that the statements' own block became, when the model knows it
+            known = [sp[0] for sp in spans if sp is not None]
+            if known and len(set(known)) == 1 and rblock != known[0]:
+                self.vio('forward-unrelated', {'why': 'the answer lies in another block', 'model_block': repr(known[0]),
+                                               'result': repr(rp)}, where_kind=how)
+                return res
         return res
 
     def all_images(self, src: int, target: int) -> dict:
